@@ -117,6 +117,7 @@ type ObsSpec struct {
 	Probe      bool // run the C09 probes
 	UnregSelf  bool // unregister itself on first call
 	UnregOther int  // observer slot to unregister on first call, or -1
+	RegNext    int  // 1 + observer slot that gets a fresh wildcard observer of the same event type registered from inside the callback (first call); 0 = none
 }
 
 // AllComps returns observed components (tuple + For).
